@@ -688,6 +688,42 @@ fn run_content(req: &str, kind: &str, expect_ok: bool, ty: &str, content: &J) ->
             "err".to_owned()
         }
         Ok(c) => {
+            // "changes no value that was present": the `rel_type` and `event_id` of an `m.room.encrypted`
+            // relation come back as they were given (the relation is chosen by its `rel_type`, whatever
+            // else — an `m.in_reply_to` — accompanies it)
+            // the REDACTED content types are (de)serialised too (a redacted state event in a sync response
+            // is re-serialised by clients and bridges): for m.room.power_levels, what survives redaction is a
+            // fixpoint of RedactedRoomPowerLevelsEventContent — read, written, read again gives the same value
+            if ty == "m.room.power_levels" {
+                use ruma_events::room::power_levels::RedactedRoomPowerLevelsEventContent as Red;
+                if let Ok(t1) = serde_json::from_str::<Red>(&text) {
+                    match serde_json::to_string(&t1).ok().and_then(|s1| serde_json::from_str::<Red>(&s1).ok().map(|t2| (s1, t2))) {
+                        Some((s1, t2)) => {
+                            if format!("{t1:?}") != format!("{t2:?}") {
+                                t3.push(format!("redacted power-levels content is not a fixpoint: {t1:?} was written as {s1} and read back as {t2:?}"));
+                            }
+                        }
+                        None => t3.push("redacted power-levels content does not survive its own serialisation".into()),
+                    }
+                }
+            }
+            if ty == "m.room.encrypted" {
+                if let (Some(rin), Some(s1)) = (content.get("m.relates_to"), &c.text) {
+                    let rout = jt::parse_text(s1).and_then(|o| o.get("m.relates_to").cloned());
+                    let spec_rel = matches!(rin.get("rel_type").and_then(J::as_str), Some("m.reference" | "m.replace" | "m.thread" | "m.annotation"));
+                    for k in ["rel_type", "event_id"] {
+                        if !spec_rel {
+                            break;
+                        }
+                        if let Some(v) = rin.get(k).and_then(J::as_str) {
+                            let got = rout.as_ref().and_then(|r| r.get(k)).and_then(J::as_str);
+                            if got != Some(v) {
+                                t3.push(format!("m.relates_to.{k} = {v:?} of the input came back as {got:?}: {s1}"));
+                            }
+                        }
+                    }
+                }
+            }
             if let Some(s1) = &c.text {
                 match jt::parse_text(s1) {
                     None => t3.push("serialised content is not valid JSON".into()),
@@ -1282,9 +1318,41 @@ fn gen_join_rules_allow(rng: &mut Rng, schemas: &[TypeSchema]) -> Option<Req> {
     None
 }
 
+/// `m.room.encrypted` content whose `m.relates_to` carries a `rel_type` TOGETHER WITH an `m.in_reply_to`
+/// (a reference / replacement / thread / annotation sent as a reply): the relation is selected by its
+/// `rel_type`, and `rel_type` / `event_id` come back unchanged.
+fn gen_encrypted_relation(rng: &mut Rng) -> Req {
+    // (the specification's relation types only: a custom `rel_type` next to an `m.in_reply_to` is read as a
+    // plain reply by design of the type and is outside the spec-shaped quantifier)
+    let rel = *rng.pick(&["m.reference", "m.replace", "m.thread", "m.annotation"]);
+    let mut r: Vec<(&str, J)> = vec![("rel_type", s(rel)), ("event_id", s(*rng.pick(&["$ev1:example.org", "$Rqnc-F-dvnEYJTyHq_iKxU2bZ1CI92-kuZq3a5lr5Zg"])))];
+    if rel == "m.annotation" {
+        r.push(("key", s("👍")));
+    }
+    if rng.chance(2, 3) {
+        r.push(("m.in_reply_to", obj(vec![("event_id", s("$reply:example.org"))])));
+    }
+    if rel == "m.thread" && rng.chance(1, 2) {
+        r.push(("is_falling_back", J::Bool(true)));
+    }
+    let mut c = obj(vec![
+        ("algorithm", s("m.megolm.v1.aes-sha2")),
+        ("ciphertext", s("AwgAEnACgAkLmt6qF84IK++J7UDH2Za1YVchHyprqTqsg")),
+        ("device_id", s("RJYKSTBOIE")),
+        ("sender_key", s("IlRMeOPX2e0MurIyfWEucYBRVOEEUMrOHqn/8mLqMjA")),
+        ("session_id", s("X3lUlvLELLYxeTx4yOVu6UDpasGEVO0Jbu+QFnm0cKQ")),
+        ("m.relates_to", obj(r)),
+    ]);
+    if rng.chance(1, 2) {
+        shuffle_deep(rng, &mut c);
+    }
+    Req::new(format!("c18.content messageLike ok {} {}", stok("m.room.encrypted"), jt::toks(&c)), "content.encrypted-relation")
+}
+
 fn gen_content(rng: &mut Rng, schemas: &[TypeSchema]) -> Req {
     match rng.below(16) {
         0 => return gen_custom_msgtype(rng),
+        2 => return gen_encrypted_relation(rng),
         1 => {
             if let Some(r) = gen_join_rules_allow(rng, schemas) {
                 return r;
